@@ -1338,6 +1338,13 @@ Proof. intros H. unfold lenZ in *. rewrite firstn_length. lia. Qed.
 Lemma lenZ_skipn {A} (l : list A) n : 0 <= n <= lenZ l -> lenZ (skipn (Z.to_nat n) l) = lenZ l - n.
 Proof. intros H. unfold lenZ in *. rewrite skipn_length. lia. Qed.
 
+Lemma skipn_skipn' {A} (x y : nat) : forall l : list A, skipn x (skipn y l) = skipn (x + y) l.
+Proof.
+  induction y as [|y IH]; intros l.
+  - rewrite Nat.add_0_r. reflexivity.
+  - destruct l as [|a r]; [rewrite !skipn_nil; reflexivity|]. rewrite Nat.add_succ_r. cbn [skipn]. apply IH.
+Qed.
+
 Lemma holds_lread_first d c r so bs : 0 <= so -> so + lenZ bs <= csize c -> holds d (cstart c + HDR + so) bs ->
   lread d (c :: r) so (lenZ bs) = map Some bs.
 Proof.
@@ -1362,7 +1369,7 @@ Proof.
   - subst m. cbn [cap_of fold_right]. rewrite Z.min_r by lia. cbn [wall_loop Z.to_nat skipn].
     exists d. rewrite Z.sub_0_r. split; [reflexivity|]. split; [constructor|]. split; [apply frame_refl|reflexivity].
   - inversion C as [|? ? Hc Cr]; subst. pose proof (chunk_at_gp _ _ Hc) as (_ & _ & S).
-    pose proof (sizes_pos_cap _ (Forall_chunk_sizes _ _ Cr)) as Hr. destruct PD as [PD1 PDr].
+    pose proof (sizes_pos_cap _ (Forall_chunk_sizes _ _ Cr)) as Hr. pose proof PD as PDall. destruct PD as [PD1 PDr].
     cbn [wall_loop]. rewrite Hwall. set (cur := Z.min (csize c) total).
     assert (Hcur : cur = Z.min (csize c) total) by reflexivity. clearbody cur.
     destruct (rewrite_chunk d c 0 cur data Hc) as (d1 & R1 & C1 & H1 & F1); try lia.
@@ -1371,7 +1378,7 @@ Proof.
     { pose proof (csize_addr c). intros x Hx. apply F1; unfold in_ext in Hx; unfold HDR in *; lia. }
     assert (Cr1 : Forall (chunk_at d1) r).
     { rewrite Forall_forall in *. intros c' I'. apply (chunk_at_frame d d1 c' (in_ext c)); auto.
-      intros x Hx Hx'. eapply (pdisj_in c r); eauto. split; auto. }
+      intros x Hx Hx'. exact (pdisj_in c r PDall c' I' x Hx' Hx). }
     destruct (Z.leb_spec (total - cur) 0) as [Stop|Go].
     + assert (Em : m = cur) by lia. assert (Ec : cur = total) by lia. rewrite Em.
       exists d1. split; [reflexivity|]. split; [constructor; auto|]. split.
@@ -1383,22 +1390,65 @@ Proof.
       { rewrite lenZ_skipn by lia. lia. }
       set (m' := Z.min (total - cur) (cap_of r)) in *. assert (Em : m = cur + m') by lia.
       exists d'. split.
-      { rewrite R'. f_equal. f_equal; [|lia]. rewrite skipn_skipn. f_equal. lia. }
+      { rewrite R'. rewrite skipn_skipn'. replace (Z.to_nat m' + Z.to_nat cur)%nat with (Z.to_nat m) by lia.
+        replace (total - cur - m') with (total - m) by lia. reflexivity. }
       assert (Cc' : chunk_at d' c).
       { apply (chunk_at_frame d1 d' c (in_exts r)); auto. intros x Hx (c' & I' & Hx').
-        eapply (pdisj_in c r); eauto. split; auto. }
+        exact (pdisj_in c r PDall c' I' x Hx Hx'). }
       split; [constructor; auto|]. split.
       * eapply frame_trans; [exact Fr1|exact F'| |]; intros x Hx; apply in_exts_cons; auto.
-      * rewrite Em. rewrite lread_app by lia. rewrite Z.add_0_l.
-        rewrite Ec at 2. rewrite lread_skip by lia. rewrite Z.sub_diag. rewrite L'.
+      * rewrite Em. rewrite lread_app by lia.
+        replace (0 + cur) with (csize c) by lia. rewrite (lread_skip d' c r (csize c) m') by lia.
+        rewrite Z.sub_diag. rewrite L'.
         assert (Hh : holds d' (cstart c + HDR + 0) (firstn (Z.to_nat cur) data)).
         { apply (holds_frame d1 d' _ _ (in_exts r) H1 F'). intros x Hx (c' & I' & Hx').
           rewrite lenZ_firstn_ge in Hx by lia.
-          eapply (pdisj_in c r); eauto. split; auto. unfold in_ext. pose proof (csize_addr c). unfold HDR in *. lia. }
+          apply (pdisj_in c r PDall c' I' x); auto. unfold in_ext. pose proof (csize_addr c). unfold HDR in *. lia. }
         rewrite <- (lenZ_firstn_ge data cur) at 1 by lia.
         rewrite holds_lread_first; [| lia | rewrite lenZ_firstn_ge by lia; lia | exact Hh ].
         rewrite <- map_app. f_equal.
         rewrite Z2Nat.inj_add by lia. rewrite <- firstn_skipn with (n := Z.to_nat cur) (l := firstn (Z.to_nat cur + Z.to_nat m') data).
         rewrite firstn_firstn, Nat.min_l by lia. f_equal.
         rewrite firstn_skipn_comm. reflexivity.
+Qed.
+
+(* ------------------------------------------------------------------ freshness of the allocator's answers *)
+Definition fresh_at (E : list (Z * Z)) (p : ptr) (n : Z) : Prop :=
+  gp p /\ addr p < 2 ^ 43 /\ Forall (fun e => addr p + n <= fst e \/ snd e <= addr p) E.
+
+Lemma fresh_cons_inv E p r n nr : fresh E (p :: r) (n :: nr) = true ->
+  fresh_at E p n /\ fresh ((addr p, addr p + n) :: E) r nr = true.
+Proof.
+  cbn [fresh]. intros H. apply andb_true_iff in H. destruct H as [H H3]. apply andb_true_iff in H. destruct H as [H1 H2].
+  destruct (ptr_in_range_gp p H1) as [G A]. split; [|exact H3]. split; [exact G|]. split; [exact A|].
+  rewrite forallb_forall in H2. apply Forall_forall. intros e He. specialize (H2 e He).
+  unfold disjoint in H2. cbn [fst snd] in H2. apply orb_true_iff in H2.
+  destruct H2 as [H2|H2]; [left|right]; [destruct (Z.leb_spec (addr p + n) (fst e))|destruct (Z.leb_spec (snd e) (addr p))]; auto; discriminate.
+Qed.
+
+Lemma fresh_nil_sizes E n nr : fresh E [] (n :: nr) = true -> False.
+Proof. cbn. discriminate. Qed.
+
+Lemma live_extents_inv h d cs : Inv h d cs ->
+  live_extents fa h d = map ext cs ++ (if h_n h >=? 2 then [text (h_dc h) (h_n h)] else []).
+Proof.
+  intros I. unfold live_extents. rewrite (chunks_of_inv _ _ _ I). f_equal.
+  unfold table_extent, text, TAG_SIZE, DPS. destruct (h_n h >=? 2); auto. do 2 f_equal. ring.
+Qed.
+
+Lemma total_bounds h : dims_ok (h_dims h) = true -> total_bytes h <> 0 ->
+  0 < esz (h_ty h) /\ 0 < total_bytes h < 2 ^ 40 /\ total_bytes h mod esz (h_ty h) = 0.
+Proof.
+  intros D T. unfold dims_ok in D. apply andb_true_iff in D. destruct D as [D D3]. apply andb_true_iff in D. destruct D as [D1 D2].
+  pose proof (prodZ_dims_pos _ D2) as P. rewrite total_bytes_unfold in *.
+  destruct (Z.ltb_spec (prodZ (h_dims h) * 16) (2 ^ 40)); [|discriminate].
+  assert (E : 0 <= esz (h_ty h) <= 16) by (destruct (h_ty h); cbn; lia).
+  split; [nia|]. split; [nia|]. rewrite Z.mul_comm. apply Z.mod_mul. nia.
+Qed.
+
+Lemma inv_single ty dims d c : chunk_at d c -> csize c mod esz ty = 0 -> 0 < esz ty ->
+  Inv (mkHdr ty dims 1 (fst c)) d [c].
+Proof.
+  intros C M Z0. unfold Inv. cbn [h_n h_ty h_dc map pdisj]. split; [reflexivity|]. split; [constructor; auto|].
+  split; [split; auto; constructor|]. split; [constructor; auto|]. split; auto.
 Qed.
